@@ -282,6 +282,42 @@ def run(ctx):
         for s, k in drops.items():
             if seen.get(s, 0) != k + 1 and s != "STATU":
                 ctx.fail("handshake:retransmissions", "%s transmitted %d times with %d attempts lost" % (s, seen.get(s, 0), k), {"drops": drops, "transmissions": seen})
+    # a handler whose ACCEPTANCE TEST raises (a header parser fed a runt datagram): the engine's iteration must survive it, and the datagrams
+    # before and after it are dispatched as usual - stepped exactly as _thread_func does, through the receive step
+    def raising_can_handle():
+        from geckolib.driver.udp_socket import GeckoUdpSocket
+        from geckolib.driver.udp_protocol_handler import GeckoUdpProtocolHandler
+        got = []
+
+        class Parser(GeckoUdpProtocolHandler):
+            def can_handle(self, data, sender):
+                return data[4] == 0x41            # IndexError on a datagram shorter than five bytes
+
+            def handle(self, data, sender):
+                got.append(bytes(data))
+        with vloop.quiet():
+            sock = GeckoUdpSocket(MockSocket())
+            sock.add_receive_handler(Parser())
+            sock._socket.inbox += [(b"xxxxA-1", ("10.0.0.1", 1)), (b"r", ("10.0.0.1", 1)), (b"xxxxA-2", ("10.0.0.1", 1))]
+            died = None
+            for _ in range(4):
+                try:
+                    sock._process_send_requests()
+                    sock._process_received_data()
+                    for h in sock._receive_handlers:
+                        h.loop(sock)
+                    sock._cleanup_handlers()
+                    sock._loop_func()
+                except Exception as e:  # noqa
+                    died = repr(e)
+                    break
+        return died, got
+    died, got = raising_can_handle()
+    ctx.count("raising_acceptance_test_probe")
+    ctx.case(("raising_can_handle",), nontrivial=True)
+    if died is not None or got != [b"xxxxA-1", b"xxxxA-2"]:
+        ctx.fail("engine:acceptance_test_exception_stops_engine", "a handler whose can_handle raises on a runt datagram ends the engine's loop (%s); datagrams dispatched: %r" % (died, got),
+                 {"exception": died, "dispatched": [list(x) for x in got]})
     # segments of the first status answer lost on the way (first / middle / several; the last one arrives): the block must still end up identical
     for lost in ([(0,), (3,), (1, 2), (5, 9, 20)] + ([(25,), (0, 26)] if ctx.thorough else [])):
         ok, same, iters, seen = handshake({}, lost_segments=lost)
